@@ -12,6 +12,7 @@
 (*   C13  Operand     an operand's projection (container contents included) is unchanged     *)
 (*        CopyEq      a copy / deepcopy / CreateCopy() / pickle equals its source            *)
 (*   C03  SumAgrees   a sum / difference over two units of the real table equals left + right converted (1e-9), in the left operand's units *)
+(*   C04  Agrees      a result has the reference's quantity and its value to 1e-9 *)
 (*   C09  Same        the recorded result equals the recorded reference (Python's own float operator on the raw numbers)  *)
 (*   C12  CatConsistent  a registered category has a registered default unit among its valid units and builds a valid Scalar in it  *)
 (*   C20  SimpleStr   a simple quantity's strings are its registered category, type, unit    *)
@@ -34,6 +35,7 @@ Judge(ev) ==
     [] ev.op = "Operand"   -> ev.pre = ev.post
     [] ev.op = "CopyEq"    -> ev.eq /\ ~ev.ne /\ ev.desc1 = ev.desc2
     [] ev.op = "Same"      -> ev.a = ev.b
+    [] ev.op = "Agrees"    -> ev.ok /\ ev.same_quantity /\ ev.ppt <= 1000                            \* C04: a ** n against the n-fold product
     [] ev.op = "SumAgrees" -> ev.ok /\ ev.ppt <= 1000 /\ ev.units_kept /\ ev.left_kept      \* C03 on the real table: 1e-9 of the amounts that entered
     [] ev.op = "CatConsistent" -> ev.du_registered /\ ev.du_in_valid /\ ev.scalar_built /\ ev.scalar_valid /\ ev.scalar_unit_is_du /\ ev.check_default
     [] ev.op = "SimpleStr" -> ev.unit = ev.u /\ ev.category = ev.c /\ ev.qtype = ev.qt /\ ev.repr_shows /\ ev.str_shows
